@@ -678,3 +678,35 @@ func calleeNameCI(ci ssa.CallInstruction) string {
 	}
 	return "dynamic call"
 }
+
+// ctorCallIn: a call in fn that constructs a value with ctor, either directly or through a local factory closure
+// (an anonymous function of fn whose every return is a ctor call). Returns the ctor call whose arguments count
+// (the call itself, or the one inside the factory) - nil when c is not a construction site.
+func ctorCallIn(fn *ssa.Function, c *ssa.Call, ctor *ssa.Function) *ssa.Call {
+	callee := c.Call.StaticCallee()
+	if callee == nil {
+		return nil
+	}
+	if callee == ctor {
+		return c
+	}
+	if callee.Parent() != fn || len(callee.Params) != 0 {
+		return nil
+	}
+	var inner *ssa.Call
+	for _, b := range callee.Blocks {
+		ret, ok := b.Instrs[len(b.Instrs)-1].(*ssa.Return)
+		if !ok {
+			continue
+		}
+		if len(ret.Results) != 1 {
+			return nil
+		}
+		ic, ok := ret.Results[0].(*ssa.Call)
+		if !ok || ic.Call.StaticCallee() != ctor || (inner != nil && inner != ic) {
+			return nil
+		}
+		inner = ic
+	}
+	return inner
+}
